@@ -296,3 +296,227 @@ Proof.
   repeat (apply andb_true_iff in H; destruct H as [H ?]).
   repeat (apply andb_true_iff; split); assumption.
 Qed.
+
+(* ------------------------------------------------------------------ *)
+(* C03: one object set                                                   *)
+
+(* the payload process_stored yields with a fresh (restarted) processor *)
+Definition stored_payload (p : policy) (st : option stored) : list N := process_stored p st [].
+
+Lemma no_collector_spec : forall fixed p st,
+  process fixed p st NoCollector = (st, stored_payload p st) /\
+  process fixed p st NoManifest = (st, stored_payload p st).
+Proof. intros. split; reflexivity. Qed.
+
+Lemma stored_payload_cases : forall p st,
+  stored_payload p st = [] \/
+  exists s, st = Some s /\ validate_stored p s = true /\ stored_payload p st = flat_map f_items (s_objs s).
+Proof.
+  intros p [s|]; unfold stored_payload; cbn [process_stored]; auto.
+  destruct (validate_stored p s) eqn:E; auto. right. exists s. auto.
+Qed.
+
+(* exact description of the fixed code on a fetched manifest, for every iteration order *)
+Lemma c03_exact : forall p st v perm, Permutation (pick (v_files v) perm) (v_files v) ->
+  process true p st (Collected v perm) =
+    if accepts p st v
+    then (Some (store_of v (pick (v_files v) perm)), flat_map f_items (pick (v_files v) perm))
+    else (fallback_store p st v, stored_payload p (fallback_store p st v)).
+Proof. intros. rewrite process_spec by assumption. reflexivity. Qed.
+
+Definition wf_fetch (f : fetch) : Prop :=
+  match f with Collected v perm => Permutation (pick (v_files v) perm) (v_files v) | _ => True end.
+
+(* The payload a CA contributes in a run is nothing, or exactly the stored version's object set
+   (the store is then untouched), or exactly the fetched version's object set, which then
+   validated, is complete, and is what the store holds afterwards. *)
+Lemma c03_one_object_set : forall p st f, wf_fetch f ->
+  let st' := fst (process true p st f) in
+  let pay := snd (process true p st f) in
+  pay = []
+  \/ (exists s, st = Some s /\ st' = st /\ validate_stored p s = true /\ pay = flat_map f_items (s_objs s))
+  \/ (exists v perm, f = Collected v perm /\ validate_collected p v = true /\ complete v = true
+        /\ st' = Some (store_of v (pick (v_files v) perm)) /\ Permutation pay (set_payload v)).
+Proof.
+  intros p st f Hwf. destruct f as [| |v perm]; cbn [wf_fetch] in Hwf.
+  - cbn [process fst snd]. fold (stored_payload p st).
+    destruct (stored_payload_cases p st) as [H|[s [H1 [H2 H3]]]]; auto.
+    right. left. exists s. auto.
+  - cbn [process fst snd]. fold (stored_payload p st).
+    destruct (stored_payload_cases p st) as [H|[s [H1 [H2 H3]]]]; auto.
+    right. left. exists s. auto.
+  - rewrite c03_exact by assumption.
+    destruct (accepts p st v) eqn:Ha; cbn [fst snd].
+    + right. right. exists v, perm. destruct (accepts_valid _ _ _ Ha) as [Hv Hc].
+      repeat split; auto. unfold set_payload. apply flat_map_perm. assumption.
+    + destruct (fallback_store_cases p st v) as [E|[E _]]; rewrite E.
+      * destruct (stored_payload_cases p st) as [H|[s [H1 [H2 H3]]]]; auto.
+        right. left. exists s. auto.
+      * left. reflexivity.
+Qed.
+
+(* the payload does not depend on the iteration order (as a multiset), nor does the decision *)
+Lemma c03_order_irrelevant : forall p st v perm1 perm2,
+  Permutation (pick (v_files v) perm1) (v_files v) -> Permutation (pick (v_files v) perm2) (v_files v) ->
+  Permutation (snd (process true p st (Collected v perm1))) (snd (process true p st (Collected v perm2))).
+Proof.
+  intros p st v p1 p2 H1 H2. rewrite !c03_exact by assumption.
+  destruct (accepts p st v); cbn [snd]; [|apply Permutation_refl].
+  apply flat_map_perm. eapply Permutation_trans; [eassumption|apply Permutation_sym; assumption].
+Qed.
+
+(* The code as found (fixed = false): witness of a mixture.  Stored: manifest 1 = {crl, a, b};
+   fetched: manifest 2 = {crl, a, c, m} with m missing, walked in the order crl a c m. *)
+Definition w_v1 : version :=
+  mkv 1 true true false false true true false 1 100 [mkf 1 true true []; mkf 2 true true [2]; mkf 3 true true [3]].
+Definition w_v2 : version :=
+  mkv 2 true true false false true true false 2 200
+      [mkf 1 true true []; mkf 2 true true [2]; mkf 4 true true [4]; mkf 5 false true [5]].
+Definition w_st : option stored := Some (store_of w_v1 (v_files w_v1)).
+Definition w_perm : list N := [0; 1; 2; 3].
+
+Lemma c03_unfixed_refuted :
+  exists p st v perm,
+    consistent st /\ Permutation (pick (v_files v) perm) (v_files v) /\
+    let pay := snd (process false p st (Collected v perm)) in
+    fst (process false p st (Collected v perm)) = st /\
+    (exists x, In x pay /\ ~ In x (stored_payload p st)) /\     (* from the abandoned fetched set only *)
+    (exists y, In y pay /\ ~ In y (set_payload v)).             (* from the stored set only *)
+Proof.
+  exists Reject, w_st, w_v2, w_perm. split; [|split].
+  - cbn. auto.
+  - apply perm_ok_Permutation. reflexivity.
+  - vm_compute. split; [reflexivity|split].
+    + exists 4. split; [tauto|]. intros [H|[H|H]]; try discriminate H; exact H.
+    + exists 3. split; [tauto|]. intros [H|[H|[H|H]]]; try discriminate H; exact H.
+Qed.
+
+(* the oracle rejects what the unfixed code does on that history *)
+Lemma c03_unfixed_oracle_false :
+  let runs := [mkr Reject None (Collected w_v1 [0; 1; 2]); mkr Reject None (Collected w_v2 w_perm)] in
+  spec03_okb [1] runs
+    (map (fun r => mko true (canon ([1] ++ snd r)) (obs_of_store (fst r))) (run_history false None runs)) = false
+  /\ spec03_okb [1] runs (model_obs [1] runs) = true.
+Proof. split; vm_compute; reflexivity. Qed.
+
+(* ------------------------------------------------------------------ *)
+(* C04: the store changes only for a complete, verified fetch            *)
+
+Lemma c04_step : forall fixed p st f, wf_fetch f ->
+  let st' := fst (process fixed p st f) in
+  st' = st
+  \/ (exists v perm, f = Collected v perm /\ validate_collected p v = true /\ complete v = true
+        /\ st' = Some (store_of v (pick (v_files v) perm))
+        /\ Permutation (s_objs (store_of v (pick (v_files v) perm))) (v_files v))
+  \/ (st' = None /\ ~ consistent st).
+Proof.
+  intros fixed p st f Hwf. destruct f as [| |v perm]; cbn [wf_fetch] in Hwf; try (left; reflexivity).
+  rewrite process_spec by assumption.
+  destruct (accepts p st v) eqn:Ha; cbn [fst].
+  - right. left. exists v, perm. destruct (accepts_valid _ _ _ Ha). repeat split; auto.
+  - destruct (fallback_store_cases p st v) as [E|[E Hc]]; auto.
+    right. right. split; auto. intros C. apply consistentb_spec in C. congruence.
+Qed.
+
+(* a run that leaves the store unchanged leaves it usable: the next run without collector
+   yields the stored version's payload as before *)
+Lemma c04_unchanged_usable : forall fixed p st f p',
+  fst (process fixed p st f) = st ->
+  process fixed p' (fst (process fixed p st f)) NoCollector = process fixed p' st NoCollector.
+Proof. intros. rewrite H. reflexivity. Qed.
+
+(* ------------------------------------------------------------------ *)
+(* C05: no rollback                                                      *)
+
+Lemma c05_step : forall fixed p s f, wf_fetch f -> consistent (Some s) ->
+  let st' := fst (process fixed p (Some s) f) in
+  st' = Some s
+  \/ exists s', st' = Some s' /\ consistent st' /\ s_number s < s_number s' /\ s_this s < s_this s'.
+Proof.
+  intros fixed p s f Hwf Hc. destruct f as [| |v perm]; cbn [wf_fetch] in Hwf; try (left; reflexivity).
+  rewrite process_spec by assumption.
+  destruct (accepts p (Some s) v) eqn:Ha; cbn [fst].
+  - right. exists (store_of v (pick (v_files v) perm)). split; auto.
+    destruct (accepts_newer _ _ _ Ha Hc). destruct (accepts_valid _ _ _ Ha) as [Hv _].
+    unfold validate_collected in Hv. repeat (apply andb_true_iff in Hv; destruct Hv as [Hv ?]).
+    cbn. auto.
+  - left. apply fallback_store_consistent. assumption.
+Qed.
+
+Lemma c05_step_none : forall fixed p f, wf_fetch f -> consistent (fst (process fixed p None f)).
+Proof.
+  intros fixed p f Hwf. destruct f as [| |v perm]; cbn [wf_fetch] in Hwf; try exact I.
+  rewrite process_spec by assumption.
+  destruct (accepts p None v) eqn:Ha; cbn [fst].
+  - destruct (accepts_valid _ _ _ Ha) as [Hv _].
+    unfold validate_collected in Hv. repeat (apply andb_true_iff in Hv; destruct Hv as [Hv ?]).
+    cbn. auto.
+  - rewrite fallback_store_consistent; exact I.
+Qed.
+
+(* a replayed / reordered older manifest changes nothing: store and payload are the stored version's *)
+Lemma c05_replay : forall p s v perm, Permutation (pick (v_files v) perm) (v_files v) ->
+  consistent (Some s) -> (v_number v <= s_number s \/ v_this v <= s_this s) ->
+  process true p (Some s) (Collected v perm) = (Some s, stored_payload p (Some s)).
+Proof.
+  intros p s v perm Hp Hc Hold. rewrite c03_exact by assumption.
+  destruct (accepts p (Some s) v) eqn:Ha.
+  - destruct (accepts_newer _ _ _ Ha Hc). lia.
+  - rewrite fallback_store_consistent by assumption. reflexivity.
+Qed.
+
+(* histories *)
+Definition no_tamper (runs : list run_in) : Prop := Forall (fun r => r_tamper r = None) runs.
+Definition wf_runs (runs : list run_in) : Prop := Forall (fun r => wf_fetch (r_fetch r)) runs.
+
+Fixpoint final_state (fixed : bool) (st : option stored) (runs : list run_in) : option stored :=
+  match runs with
+  | [] => st
+  | r :: rest => final_state fixed (fst (step fixed st r)) rest
+  end.
+
+Lemma final_state_app : forall fixed a b st,
+  final_state fixed st (a ++ b) = final_state fixed (final_state fixed st a) b.
+Proof. induction a as [|r a IH]; intros; cbn [app final_state]; auto. Qed.
+
+Lemma last_cons_default : forall (A : Type) (l : list A) (a d : A), last (a :: l) d = last l a.
+Proof.
+  induction l as [|b l IH]; intros a d; auto.
+  change (last (a :: b :: l) d) with (last (b :: l) d). rewrite !IH. reflexivity.
+Qed.
+
+Lemma final_state_history : forall fixed runs st,
+  final_state fixed st runs = last (map fst (run_history fixed st runs)) st.
+Proof.
+  induction runs as [|r rest IH]; intros st; auto.
+  cbn [final_state run_history map]. rewrite last_cons_default. apply IH.
+Qed.
+
+Lemma c05_history_consistent : forall fixed runs st,
+  wf_runs runs -> no_tamper runs -> consistent st -> consistent (final_state fixed st runs).
+Proof.
+  induction runs as [|r rest IH]; intros st Hwf Hnt Hc; cbn [final_state]; auto.
+  inversion Hwf; subst. inversion Hnt; subst.
+  apply IH; auto. unfold step. rewrite H3. cbn [apply_tamper].
+  destruct st as [s|].
+  - destruct (c05_step fixed (r_policy r) s (r_fetch r) H1 Hc) as [E|[s' [E [Hc' _]]]]; rewrite E; auto.
+    rewrite <- E. assumption.
+  - apply c05_step_none. assumption.
+Qed.
+
+(* from a stored manifest on, every later stored manifest has a number and a thisUpdate that are
+   at least as large: the stored data never goes back, whatever the repository serves *)
+Lemma c05_history_monotone : forall fixed runs s,
+  wf_runs runs -> no_tamper runs -> consistent (Some s) ->
+  exists s', final_state fixed (Some s) runs = Some s' /\ consistent (Some s')
+             /\ s_number s <= s_number s' /\ s_this s <= s_this s'.
+Proof.
+  induction runs as [|r rest IH]; intros s Hwf Hnt Hc; cbn [final_state].
+  - exists s. split; [reflexivity|split; [assumption|split; lia]].
+  - inversion Hwf; subst. inversion Hnt; subst.
+    unfold step. rewrite H3. cbn [apply_tamper].
+    destruct (c05_step fixed (r_policy r) s (r_fetch r) H1 Hc) as [E|[s1 [E [Hc1 [Hn Ht]]]]]; rewrite E.
+    + apply IH; auto.
+    + rewrite E in Hc1. destruct (IH s1 H2 H4 Hc1) as [s' [E' [Hc' [Hn' Ht']]]].
+      exists s'. split; [assumption|split; [assumption|split; lia]].
+Qed.
